@@ -606,6 +606,118 @@ def install_re(reg):
     reg.method_models[("RePattern", "sub")] = lambda ex, st, o, a, k, n: [(st, VStr(RESUB(pat(o.t), a[0].t, a[1].t)))]
 
 
+# --------------------------------------------------- construction site: EPUB spine --
+EPUB = "sharepoint2text/parsing/extractors/epub_extractor.py"
+OPF_NS = "http://www.idpf.org/2007/opf"
+from contracts import etree_model as ET  # noqa: E402
+
+_IDREF = z3.StringVal("idref")
+
+
+def idref_of(e):
+    """itemref.get("idref", "")"""
+    return z3.If(ET.HAS_ATTR(e, _IDREF), ET.ATTR(e, _IDREF), z3.StringVal(""))
+
+
+# CNT_IDREF(e, tag, i): number of the first i `tag` children of e that carry a non-empty idref.  Declared uninterpreted;
+# its definition by primitive recursion is supplied as ground instances where an invariant is assumed (RecFunction made
+# trivial VCs time out here, as recorded in ENGINE.md for C10/C16).
+CNT_IDREF = fun("cnt_idref", ET.ELEM, S, I, I)
+
+
+def cnt_idref_def(e, tag, j):
+    return CNT_IDREF(e, tag, j) == z3.If(j <= 0, 0, CNT_IDREF(e, tag, j - 1) +
+                                         z3.If(idref_of(ET.FA_AT(e, tag, j - 1)) != z3.StringVal(""), 1, 0))
+
+
+def spine_is_filtered(S_: VSeq, e, tag, upto, prefix=""):
+    """S_ == [idref(x) for x in findall(e, tag)[:upto] if idref(x)]  (order preserving, complete), as
+    count + position-of-every-kept-item + positions increasing."""
+    k = z3.Int("k!sp")
+    kept = idref_of(ET.FA_AT(e, tag, k)) != z3.StringVal("")
+    rng = z3.And(k >= 0, k < upto)
+    from contracts.c16_exec import ConjA
+    if not isinstance(S_.elem(k), VStr):       # the list no longer holds strings only (e.g. rebuilt from an unknown source)
+        return Conj([(prefix + "count", z3.BoolVal(False)), (prefix + "order", z3.BoolVal(False)), (prefix + "items", z3.BoolVal(False))])
+    return ConjA([
+        (prefix + "count", z3.And(S_.length == CNT_IDREF(e, tag, upto), S_.length >= 0)),
+        (prefix + "order", z3.ForAll([k], z3.Implies(z3.And(rng, kept), z3.And(CNT_IDREF(e, tag, k) >= 0, CNT_IDREF(e, tag, k) < CNT_IDREF(e, tag, upto))),
+                                     patterns=[CNT_IDREF(e, tag, k)])),
+        (prefix + "items", z3.ForAll([k], z3.Implies(z3.And(rng, kept), S_.elem(CNT_IDREF(e, tag, k)).t == idref_of(ET.FA_AT(e, tag, k))),
+                                     patterns=[CNT_IDREF(e, tag, k)])),
+    ], defs=[cnt_idref_def(e, tag, z3.IntVal(0)), cnt_idref_def(e, tag, upto), cnt_idref_def(e, tag, upto + 1)])
+
+
+def parse_spine_contract():
+    """_EpubContext._parse_spine: the reading order (`_spine`) is the list of the idrefs of the spine's itemref
+    children in DOCUMENT order (itemrefs without idref skipped); chapter numbers are positions in this list."""
+    T_SPINE, T_SPINE_ANY = z3.StringVal("{%s}spine" % OPF_NS), z3.StringVal("{*}spine")
+    T_REF, T_REF_ANY = z3.StringVal("{%s}itemref" % OPF_NS), z3.StringVal("{*}itemref")
+
+    def spine_of(st, c):
+        return st.obj(st.obj(c.args["self"].ref).data["_spine"].ref).data
+
+    def root_of(c):
+        return c.entry.obj(c.args["self"].ref).data["_opf_root"]
+
+    def requires(c):
+        return spine_of(c.entry, c).length == 0
+
+    def ens(which):
+        def f(c):
+            S_ = spine_of(c.st, c)
+            root = root_of(c)
+            if root is NONE:
+                return S_.length == 0
+            r = root.t
+            cases = [(ET.FA_N(r, T_SPINE) > 0, ET.FA_AT(r, T_SPINE, 0)),
+                     (z3.And(ET.FA_N(r, T_SPINE) <= 0, ET.FA_N(r, T_SPINE_ANY) > 0), ET.FA_AT(r, T_SPINE_ANY, 0))]
+            out = [z3.Implies(z3.And(ET.FA_N(r, T_SPINE) <= 0, ET.FA_N(r, T_SPINE_ANY) <= 0), S_.length == 0)]
+            for cond, e in cases:
+                n1, n2 = ET.FA_N(e, T_REF), ET.FA_N(e, T_REF_ANY)
+                primary = CNT_IDREF(e, T_REF, n1) > 0
+                conj1 = dict(spine_is_filtered(S_, e, T_REF, n1))
+                conj2 = dict(spine_is_filtered(S_, e, T_REF_ANY, n2))
+                out.append(z3.Implies(z3.And(cond, primary), conj1[which]))
+                out.append(z3.Implies(z3.And(cond, z3.Not(primary)), conj2[which]))
+            return z3.And(out)
+        return f
+
+    def inv_for(tag):
+        def inv(lc):
+            me = lc.entry.frames[0].env["self"]
+            S_ = lc.st.obj(lc.st.obj(me.ref).data["_spine"].ref).data
+            e = lc.st.lookup("spine_elem")
+            if not isinstance(e, VExt):
+                return z3.BoolVal(False)
+            return spine_is_filtered(S_, e.t, tag, lc.i)
+        return inv
+
+    def hyps(c):
+        root = root_of(c)
+        if root is NONE:
+            return z3.BoolVal(True)
+        out = []
+        for e in (ET.FA_AT(root.t, T_SPINE, 0), ET.FA_AT(root.t, T_SPINE_ANY, 0)):
+            for t in (T_REF, T_REF_ANY):
+                out.append(cnt_idref_def(e, t, z3.IntVal(0)))
+        return z3.And(out)
+
+    from pyvc.verify import p_opt
+    return FnContract(
+        target=f"{EPUB}::_EpubContext._parse_spine",
+        hyps=hyps,
+        params=[("self", p_obj("_EpubContext", {"_opf_root": p_opt(p_ext("Elem")), "_spine": p_alist("str")}))],
+        requires=requires,
+        ensures=[("one-entry-per-itemref-with-idref", ens("count")), ("entries-in-document-order", ens("order")),
+                 ("entry-k-is-the-idref-of-the-k-th-kept-itemref", ens("items"))],
+        raises=[],
+        loops={0: LoopSpec(inv=inv_for(T_REF), label="itemrefs"), 1: LoopSpec(inv=inv_for(T_REF_ANY), label="itemrefs-any-namespace")},
+        modifies=("self",),
+        note="reading order == idrefs of <spine>/<itemref> in document order; assumed: xml.etree findall returns direct children in document order",
+    )
+
+
 # ------------------------------------------------------------ opaque members --
 def install_opaque():
     OP = X.UnitsExecutor.OPAQUE
@@ -626,7 +738,7 @@ def install_opaque():
     OP[("XlsSheet", "get_table")] = xls_table
 
 
-class C03Executor(X.UnitsExecutor):
+class C03Executor(ET.ETreeMixin, X.UnitsExecutor):
     def compare(self, st, op, a, b, node):
         # `cell is None` on an abstract cell value
         if op in ("Is", "IsNot") and isinstance(a, VExt) and a.sort == "Cell" and b is NONE:
@@ -635,10 +747,46 @@ class C03Executor(X.UnitsExecutor):
         return super().compare(st, op, a, b, node)
 
 
-EXECUTOR = C03Executor
+MBOX = "sharepoint2text/parsing/extractors/mail/mbox_email_extractor.py"
+
+
+def EXECUTOR(module, reg, uni, **kw):
+    """Executor per module under verification: the mailbox splitter is verified with C16's executor (bytes of symbolic
+    length, re.finditer model) under C16's contract, which C03 shares (message boundaries are part of both properties)."""
+    if module.rel == MBOX:
+        return _mail_executor()(module, reg, uni, **kw)
+    return C03Executor(module, reg, uni, **kw)
+
+
+_MAIL_EXEC = []
+
+
+def _mail_executor():
+    if not _MAIL_EXEC:
+        from contracts import c16_exec
+        from pyvc.values import VBytes, VTuple
+
+        class C03MailExecutor(c16_exec.MailExecutor):
+            """bytes literals given to startswith/endswith on a (latin-1 modelled) byte string"""
+
+            def str_method(self, st, s, name, args, kwargs, node):
+                if name in ("startswith", "endswith") and args:
+                    def conv(a):
+                        if isinstance(a, VBytes):
+                            return VStr(c16_exec.bytes_term(a))
+                        if isinstance(a, VTuple):
+                            return VTuple([conv(x) for x in a.items])
+                        return a
+                    args = [conv(args[0])] + list(args[1:])
+                return super().str_method(st, s, name, args, kwargs, node)
+
+        _MAIL_EXEC.append(C03MailExecutor)
+    return _MAIL_EXEC[0]
 
 
 def contracts(reg):
+    from contracts import c16_exec
+    c16_exec.install(reg)          # finditer / Match model for the mailbox splitter (calls X.install as well)
     X.install(reg)
     install_opaque()
     out = []
@@ -655,12 +803,19 @@ def contracts(reg):
     out.extend(assumed_ppt_parsers())
     install_re(reg)
     out.append(flush_page_contract())
+    ET.install(reg)
+    out.append(parse_spine_contract())
+    from contracts import C16
+    out.append(C16.split_contract())      # one message per non-empty slice between separator lines, in order
     return out
 
 
 from contracts import c03_flow  # noqa: E402
 
-EXTRA = [c03_flow.construction_sites, c03_flow.heading_iterators]
+from contracts import c03_sections  # noqa: E402
+
+EXTRA = [c03_flow.construction_sites, c03_flow.heading_iterators, c03_sections.odt_step, c03_sections.native_sections]
+known_findings = c03_sections.known_findings
 REPLAY_UNKNOWN = True    # an obligation the solver leaves unknown is searched natively (replay/C03.py) before it is reported undecided
 
 
@@ -669,10 +824,14 @@ TRUSTED = ["observation of a unit = (get_metadata().unit_number, get_text()) com
            "arbitrary well-typed lists or raise (assumed contracts; their content is C02's)",
            "construction-site and heading-iterator obligations with back end `dataflow` are decided by per-iteration event counting "
            "on the AST (contracts/c03_flow.py); an unrecognised shape is UNDECIDED"]
-ASSUMED_MODELS = ["str.strip (uninterpreted)", "str.join over a symbolic-length sequence (uninterpreted function of separator, element function, length)",
+ASSUMED_MODELS = ["xml.etree Element.find/findall/get (contracts/etree_model.py: direct children with a tag, in document order)",
+                  "re finditer / Match.start / Match.end (contracts/c16_exec.py: ordered, non-overlapping, non-empty matches inside the data)",
+                  "str.strip (uninterpreted)", "str.join over a symbolic-length sequence (uninterpreted function of separator, element function, length)",
                   "PptSlideContent.text_combined / OdpSlide.text_combined / PptxSlide.get_text / XlsSheet.get_table: pure functions of the instance"]
-NOT_CLAIMED = ["coverage of the body by the heading-section units of doc/docx/odt (only their numbering 1..m is claimed; natively observed: "
-               "a docx heading with empty text, or paragraphs before the first heading, produce no unit for the following body text)",
+NOT_CLAIMED = ["coverage of the body by the heading-section units: discharged only as the one-paragraph step contract of OdtContent.iterate_units "
+               "(contracts/c03_sections.py::odt_step); for doc / docx (and the end-to-end effect for odt) there is only the BOUNDED native "
+               "section scope, and docx documents with body text before the first heading or with a heading without text are recorded "
+               "findings (C03-docx-body-before-first-heading, C03-docx-heading-without-text) excluded from that scope",
                "get_full_text of ppt/xls/rtf/doc/docx/odt (the statement lists eleven formats; these six are documented otherwise)",
                "end-to-end extraction (that page.text IS the text of PDF page k etc.) is C02's; here unit k == element k of the content object "
                "and element k == source item k at the construction sites"]
@@ -684,4 +843,6 @@ ASSUMPTIONS = ["DT-TYPED: fields of the content dataclasses hold values of their
                "PY-RE: compiled-pattern .sub is total and uninterpreted",
                "PY-GEN: generator = procedure appending to the ghost sequence of unit observations",
                "PY-STR", "PY-EXC / EXC-ANY"]
-BOUNDED = []
+BOUNDED = ["C03/replay::heading-sections[DocContent|DocxContent|OdtContent]/bounded#body-text-in-the-unit-of-its-section.BOUNDED: every document of "
+           "<= 5 paragraphs over {h1, h2 (fixed, hence repeated, texts), heading without text, body paragraph with distinct / repeated text, "
+           "empty paragraph} built natively and compared with the section spec of replay/C03.py (never counted as discharged)"]
